@@ -29,6 +29,11 @@
  *       -> ssec k=<k> del=<o,o,..|-> mod=<o,..|->      outputs that received it, in order; those whose octets differ
  *   joiner                                        new joiner -> sink 0
  *   jadd <i> / jdel <i>                           new / released input i (1..15)
+ *   jfd <i> <octetrate> <latency> <refuse>        set_flow_def on input i (octet rate / latency attributes when
+ *                                                 non-zero); refuse=1: every umem (re)allocation during the
+ *                                                 call is refused (flow definitions live in a udict manager
+ *                                                 without slack, so that a new attribute has to allocate)
+ *       -> jfd i=<i> r=<err> refused=<n>
  *   jsec <i> <k> [<segs>]                         input section k on input i
  *       -> jsec i=<i> k=<k> out=<ids|-> mod=<n>
  *   end                                           release everything
@@ -61,6 +66,7 @@
 #include "upipe/uref_flow.h"
 #include "upipe/uref_block.h"
 #include "upipe/uref_block_flow.h"
+#include "upipe/uref_clock.h"
 #include "upipe/ubuf.h"
 #include "upipe/ubuf_block.h"
 #include "upipe/ubuf_block_mem.h"
@@ -193,9 +199,42 @@ static struct upipe *sink_get(int id)
 static struct upipe *merger, *splitter, *joiner;
 static struct upipe *souts[MAXO], *jins[MAXO];
 
+/* flow definitions come from a dictionary manager without slack over a umem
+ * manager that can be told to refuse: a failed attribute write inside a pipe */
+static struct umem_mgr *fd_umem_mgr;
+static struct udict_mgr *fd_udict_mgr;
+static struct uref_mgr *fd_uref_mgr;
+static bool (*o_umem_alloc)(struct umem_mgr *, struct umem *, size_t);
+static bool (*o_umem_realloc)(struct umem *, size_t);
+static bool umem_refuse;
+static unsigned umem_refused;
+static bool r_umem_alloc(struct umem_mgr *mgr, struct umem *umem, size_t size)
+{
+    if (umem_refuse) { umem_refused++; return false; }
+    return o_umem_alloc(mgr, umem, size);
+}
+static bool r_umem_realloc(struct umem *umem, size_t size)
+{
+    if (umem_refuse) { umem_refused++; return false; }
+    return o_umem_realloc(umem, size);
+}
+static void fd_mgrs(void)
+{
+    if (fd_uref_mgr != NULL) return;
+    fd_umem_mgr = umem_alloc_mgr_alloc();
+    o_umem_alloc = fd_umem_mgr->umem_alloc;
+    o_umem_realloc = fd_umem_mgr->umem_realloc;
+    fd_umem_mgr->umem_alloc = r_umem_alloc;
+    fd_umem_mgr->umem_realloc = r_umem_realloc;
+    fd_udict_mgr = udict_inline_mgr_alloc(0, fd_umem_mgr, 1, 1);
+    fd_uref_mgr = uref_std_mgr_alloc(0, fd_udict_mgr, 0);
+    assert(fd_umem_mgr && fd_udict_mgr && fd_uref_mgr);
+}
+
 static struct uref *flow_def(void)
 {
-    struct uref *fd = uref_block_flow_alloc_def(uref_mgr, "mpegtspsi.");
+    fd_mgrs();
+    struct uref *fd = uref_block_flow_alloc_def(fd_uref_mgr, "mpegtspsi.");
     assert(fd != NULL);
     return fd;
 }
@@ -427,6 +466,18 @@ static void do_line(char *line)
         upipe_release(jins[i]);
         jins[i] = NULL;
         printf("jdel i=%d\n", i);
+    } else if (!strcmp(c, "jfd") && nt >= 5) {
+        int i = atoi(tok[1]);
+        assert(i > 0 && i < MAXO && jins[i] != NULL);
+        struct uref *fd = flow_def();
+        if (atoi(tok[2])) uref_block_flow_set_octetrate(fd, atoi(tok[2]));
+        if (atoi(tok[3])) uref_clock_set_latency(fd, atoi(tok[3]));
+        umem_refused = 0;
+        umem_refuse = atoi(tok[4]) != 0;
+        int e1 = upipe_set_flow_def(jins[i], fd);
+        umem_refuse = false;
+        uref_free(fd);
+        printf("jfd i=%d r=%d refused=%u\n", i, e1, umem_refused);
     } else if (!strcmp(c, "jsec") && nt >= 3) {
         int i = atoi(tok[1]);
         int k = atoi(tok[2]);
